@@ -285,7 +285,7 @@ fn random_locations(src: &mut Src, obs: &mut Obs) -> Res {
 fn random_history(src: &mut Src, obs: &mut Obs) -> Res {
     let doc = gen_doc9(src);
     let v0 = doc.to_value();
-    let qtext = *src.pick(&["$..*", "$.*", "$..[0]", "$[*][*]", "$..*[?@]", "$..[?@ != 'x']"]);
+    let qtext = *src.pick(&["$..*", "$.*", "$..[0]", "$[*][*]", "$..*[?@]", "$..[?@ != 'x']", "$..[::-2]", "$..[::-1]", "$..[-1]", "$..[-2,0]", "$[*][5::-3]", "$..[1::2]", "$..[?@][-1]"]);
     obs.eval(1);
     let paths = match guarded(|| v0.query_only_path(qtext)) {
         Ok(Ok(p)) => p,
